@@ -84,6 +84,15 @@ ClientWire(a, v) ==
   IF v = Absent THEN [loc |-> "none", v |-> Absent]
   ELSE [loc |-> a.loc, v |-> v]
 
+\* the zero value of a defaulted attribute is not told from "unset" by the encoders: it travels as it is, is
+\* replaced by the default (bodies) or is left out (the decoder then fills the default in) - the code does one
+\* or the other depending on the location and the type; all three are within the oracle
+WireChoices(a, v) ==
+  IF v # Absent /\ a.mode = "default" /\ IsZero(v)
+  THEN {ClientWire(a, v), ClientWire(a, DefaultOf(a)), [loc |-> "none", v |-> Absent]}
+  ELSE {ClientWire(a, v)}
+WiresOf(as, vs) == {w \in [DOMAIN as -> UNION {WireChoices(as[i], vs[i]) : i \in DOMAIN as}] : \A i \in DOMAIN as : w[i] \in WireChoices(as[i], vs[i])}
+
 \* what travels: a cookie value loses the bytes HTTP cookies cannot carry
 Carried(a, v) ==
   IF a.loc = "cookie" /\ a.kind = "string" /\ v.s = "uni" /\ Dev("cookie.value_sanitized")
@@ -155,7 +164,7 @@ PickDone ==
 \* ---- request half
 ClientEncode ==
   /\ pc = "encode"
-  /\ wire' = [i \in PIdx |-> ClientWire(cfg.pa[i], pv[i])]
+  /\ wire' \in WiresOf(cfg.pa, pv)
   /\ pc' = "route"
   /\ UNCHANGED <<cfg, pv, rv, delivered, invoked, status, errname, rwire, returned, cerr>>
 Route ==
@@ -185,7 +194,7 @@ TagHit == cfg.tagged /\ NRA >= 1 /\ rv[1] # Absent /\ rv[1].cls = "string" /\ rv
 ServerEncode ==
   /\ pc = "respond"
   /\ status' = IF TagHit THEN 201 ELSE 200
-  /\ rwire' = [j \in RIdx |-> ClientWire(cfg.ra[j], rv[j])]
+  /\ rwire' \in WiresOf(cfg.ra, rv)
   /\ pc' = "cswitch"
   /\ UNCHANGED <<cfg, pv, rv, wire, delivered, invoked, errname, returned, cerr>>
 ClientSwitch ==
